@@ -357,6 +357,16 @@ func (r *Receiver) handleAnnounce(ctx context.Context, amsg Announce, resend boo
 }
 
 func (r *Receiver) announceCheck(amsg Announce) error {
+	// A closed receiver says that it is closed, whoever the announcement is
+	// from. The allow callback is application code: do not hold the mutex
+	// while calling it.
+	r.announceMutex.Lock()
+	closed := r.closed
+	r.announceMutex.Unlock()
+	if closed {
+		return ErrClosed
+	}
+
 	// Check callback to see if peer ID allowed.
 	if r.allowPeer != nil && !r.allowPeer(amsg.PeerID) {
 		return errSourceNotAllowed
